@@ -23,6 +23,11 @@ def matrix(ctx):
         dict(label="tee/smoothed/screening/fixed-step", dev="tee", smooth=5, mel=0.6, adaptive=False, screening=True, solve_time=0.4),
         dict(label="barhole/adaptive/window=1", dev="barhole", smooth=0, adaptive=True, dt_max=0.125, window=1),
         dict(label="cross/gamma=0/adaptive", dev="cross", smooth=2, gamma=0.0, adaptive=True, dt_max=0.125),
+        # terminals pinned AT the uniform value (terminal_psi = 1): still psi = 1, mu = 0, no field, no bias, epsilon = 1
+        dict(label="bar/terminals-pinned-at-1/fixed-step/dt=2^-10", dev="bar", smooth=0, terminal_psi=1.0, adaptive=False, dt=2.0 ** -10, solve_time=0.03),
+        dict(label="tee/terminals-pinned-at-1/smoothed/adaptive", dev="tee", smooth=5, mel=0.6, terminal_psi=1.0, adaptive=True, dt_max=0.125),
+        dict(label="barhole/terminals-pinned-at-1/screening/adaptive/gamma=1", dev="barhole", smooth=0, gamma=1.0, terminal_psi=1.0, adaptive=True,
+             screening=True, dt=2.0 ** -10, dt_max=2.0 ** -8, solve_time=0.05),
         # small rounding seed (small fixed step, low gamma): bit-exactness is demanded on these whatever the known finding says
         dict(label="bar/gamma=0/fixed-step/dt=2^-9", dev="bar", smooth=0, gamma=0.0, adaptive=False, dt=2.0 ** -9, solve_time=0.06),
         dict(label="barhole/smoothed/gamma=1/fixed-step/dt=2^-10", dev="barhole", smooth=30, gamma=1.0, adaptive=False, dt=2.0 ** -10, solve_time=0.03),
